@@ -372,6 +372,97 @@ class Analysis:
 
 OK_REGIONS = {'TL', 'REQ', 'FRESH', 'ARG', 'HDICT'}
 
+# class attributes that are deliberately process-wide, with the reason why sharing them cannot couple requests / applications
+CLASS_ATTR_ALLOW = {
+    ('ombott/router/filter_factory.py', 'FilterFactory', '_filter_cache'):
+        'memo of handler objects per filter spec: a pure function of the spec (C01 anchors name it); filled at registration time',
+    ('ombott/router/filter_factory.py', 'FilterFactory', 'filters'):
+        'registry of filter constructors: configuration, written by add_filter at set-up time only',
+    ('ombott/router/radirouter.py', 'Route', 'filters'):
+        'registry of filter constructors: configuration, written at set-up time only',
+}
+MUTABLE_CTORS = {'dict', 'list', 'set', 'defaultdict', 'OrderedDict', 'deque', 'bytearray', 'HeaderDict', 'FormsDict', 'SimpleCookie'}
+
+
+def _is_mutable_value(v):
+    if isinstance(v, (ast.Dict, ast.List, ast.Set, ast.DictComp, ast.ListComp, ast.SetComp)):
+        return True
+    if isinstance(v, ast.Call):
+        f = v.func
+        nm = f.id if isinstance(f, ast.Name) else f.attr if isinstance(f, ast.Attribute) else None
+        return nm in MUTABLE_CTORS
+    return False
+
+
+def class_level_mutables(repo):
+    """obligation per class attribute bound to a mutable object in the class body: no method of the class may mutate it
+    through self / cls unless __init__ / __new__ (or a ts_props decorator) gives every instance its own.  A class attribute that
+    is only read (constant tables such as bad_headers, errors_map) is fine."""
+    import os
+    out = []
+    n_attrs = 0
+    pkg = os.path.join(repo, 'ombott')
+    for root, _d, files in os.walk(pkg):
+        for fn in sorted(files):
+            if not fn.endswith('.py'):
+                continue
+            path = os.path.join(root, fn)
+            rel = os.path.relpath(path, repo)
+            tree = ast.parse(open(path, encoding='utf8').read())
+            for cls in [n for n in ast.walk(tree) if isinstance(n, ast.ClassDef)]:
+                attrs = {}
+                for st in cls.body:
+                    tgt, val = None, None
+                    if isinstance(st, ast.Assign) and len(st.targets) == 1 and isinstance(st.targets[0], ast.Name):
+                        tgt, val = st.targets[0].id, st.value
+                    elif isinstance(st, ast.AnnAssign) and isinstance(st.target, ast.Name) and st.value is not None:
+                        tgt, val = st.target.id, st.value
+                    if tgt and _is_mutable_value(val):
+                        attrs[tgt] = st.lineno
+                if not attrs:
+                    continue
+                own = set()      # attributes every instance gets for itself
+                for dec in cls.decorator_list:
+                    if isinstance(dec, ast.Call) and getattr(dec.func, 'id', None) == 'ts_props':
+                        own |= {a.value for a in dec.args if isinstance(a, ast.Constant) and isinstance(a.value, str)}
+                muts = {}
+                for m in [n for n in ast.walk(cls) if isinstance(n, (ast.FunctionDef, ast.AsyncFunctionDef))]:
+                    recv = m.args.args[0].arg if m.args.args else None
+                    for n in ast.walk(m):
+                        # self.<a> = ...  in __init__/__new__/setup-like initialisers gives the instance its own object
+                        if isinstance(n, ast.Attribute) and isinstance(n.ctx, ast.Store) and isinstance(n.value, ast.Name) \
+                                and n.value.id == recv and m.name in ('__init__', '__new__'):
+                            own.add(n.attr)
+                        base = None
+                        if isinstance(n, ast.Subscript) and isinstance(n.ctx, (ast.Store, ast.Del)):
+                            base = n.value
+                        elif isinstance(n, ast.Call) and isinstance(n.func, ast.Attribute) and n.func.attr in MUTATORS:
+                            base = n.func.value
+                        elif isinstance(n, ast.AugAssign) and isinstance(n.target, (ast.Attribute, ast.Subscript)):
+                            base = n.target if isinstance(n.target, ast.Attribute) else n.target.value
+                        while isinstance(base, ast.Subscript):
+                            base = base.value
+                        if isinstance(base, ast.Attribute) and isinstance(base.value, ast.Name) \
+                                and base.value.id in (recv, 'cls', cls.name) and base.attr in attrs:
+                            muts.setdefault(base.attr, []).append((m.name, n.lineno))
+                for a, ln in sorted(attrs.items()):
+                    n_attrs += 1
+                    where = muts.get(a, [])
+                    allow = CLASS_ATTR_ALLOW.get((rel, cls.name, a))
+                    bad = bool(where) and a not in own and not allow
+                    out.append({'name': f'class_attr.{rel}:{cls.name}.{a}',
+                                'status': 'failed' if bad else 'discharged',
+                                'detail': (f'class-level mutable (line {ln}) mutated through an instance in ' +
+                                           ', '.join(f'{m} line {l}' for m, l in where) +
+                                           ' and no __init__/__new__/ts_props gives each instance its own: shared by all instances')
+                                if bad else (f'class-level mutable (line {ln}): ' +
+                                             ('never mutated through an instance' if not where else
+                                              'each instance gets its own in __init__/__new__/ts_props' if a in own else
+                                              f'allow-listed: {allow}'))})
+    out.append({'name': 'class_attr.scan_found_attributes', 'status': 'discharged' if n_attrs >= 3 else 'undecided',
+                'detail': f'{n_attrs} class-level mutable attributes in the package'})
+    return out
+
 
 def run(repo, prop, tier):
     fns, tsprops = collect_functions(repo)
@@ -424,6 +515,9 @@ def run(repo, prop, tier):
                                     '; '.join(f"line {b['line']}: {b['site']} -> {b['region']}" for b in bad)) if bad
                          else f'{len(sites)} write site(s), all TL/REQ/FRESH/ARG or allow-listed',
                          'sites': [s for s in sites_out if s['function'] == f.qual and s['file'] == f.rel][:40]})
+    # ---- class-level mutable attributes mutated through an instance (shared by every instance, application, request, thread)
+    for o in class_level_mutables(repo):
+        obls.append(o)
     obls.append({'name': 'confined.write_sites_found', 'status': 'discharged' if n_sites >= 60 else 'undecided',
                  'detail': f'{n_sites} write sites in {sum(1 for f in fns if on_request_path(f))} request-path functions '
                            f'({len(fns)} functions in the package)'})
